@@ -1,4 +1,6 @@
 import SV.Model.C02
+import SV.Lemmas.C02
+import SV.Lemmas.C02Render
 import Mathlib.Algebra.BigOperators.Group.List.Basic
 import Mathlib.Algebra.Ring.Defs
 import Mathlib.Tactic.Ring
@@ -8,7 +10,11 @@ import Mathlib.Tactic.Ring
 Property theorems only.  Evaluation half (any commutative semiring `R`, any power function `powf`):
 under an assignment that binds every variable the value is `Σ_t c_t · Π_(v,e)∈t powf (σ v) e`; if a
 variable of some term is unbound the result is `VariableNotFound` of an unbound variable — never a
-number.  The parser half (`parse_canonical`, `parse_render_inter`) is added in `SV.Props.C02Parse`.
+number.  Parser half (below, about the model `SV.C02.parse` of `parse_intermediate_polynomial`):
+`parse_canonical` / `parse_canonical_strict` (terms sorted by name without repetition, variable list =
+sorted set of the names used), `parse_ok_variables_ascii` (every name is one ASCII letter),
+`parse_render_inter` (every text of the documented language is accepted and each parsed term has the
+value written), with the steps `normalize_render`, `parts_of_render`, `parsePart_of_render` visible.
 -/
 namespace SV.Props.C02
 open SV SV.Poly
@@ -106,5 +112,243 @@ theorem eval_missing_is_error (powf : R → R → R) (terms : List (Term R)) (σ
       · exact absurd ⟨p, hp, hn⟩ ht
       · simp only [evalTermsFrom, htv]
         exact ih ⟨u, hu', p, hp, hn⟩ _
+
+/-! ## Parser half: canonical form of every accepted text
+
+`C02.parse` is the model of `parse_intermediate_polynomial` (validated against the Rust parser bit for
+bit by the K phase).  The order facts used about `String` are exactly: `≤` is transitive and total
+(for `List.mergeSort` to sort) and antisymmetric (for the strict version). -/
+section Parser
+open SV.Text SV.C02
+
+/-- **Canonical form.**  In every accepted polynomial (a) each term's variables are sorted by name and
+no name is repeated within a term; (b) the polynomial's variable list is sorted, duplicate-free, and
+contains exactly the names that occur in some term. -/
+theorem parse_canonical (cc : CharClass) (s : List Char) (p : IParsed) (h : C02.parse cc s = .ok p) :
+    (∀ t ∈ p.terms, (t.vars.map (·.1)).Pairwise (· ≤ ·) ∧ (t.vars.map (·.1)).Nodup) ∧
+    p.variables.Pairwise (· ≤ ·) ∧ p.variables.Nodup ∧
+    ∀ n, n ∈ p.variables ↔ ∃ t ∈ p.terms, ∃ v ∈ t.vars, v.1 = n := by
+  obtain ⟨hts, hvars⟩ := parse_ok_iff cc s p h
+  have hterm := parseParts_ok cc _ _ hts
+  refine ⟨fun t ht => ⟨(hterm t ht).1, (hterm t ht).2.1⟩, ?_, ?_, ?_⟩
+  · rw [hvars]; exact variables_sorted _
+  · rw [hvars]; exact (List.mergeSort_perm _ _).symm.nodup (nodup_eraseDups _)
+  · intro n
+    rw [hvars, List.mem_mergeSort, List.mem_eraseDups, List.mem_flatMap]
+    constructor
+    · rintro ⟨t, ht, hn⟩
+      obtain ⟨v, hv, rfl⟩ := List.mem_map.1 hn
+      exact ⟨t, ht, v, hv, rfl⟩
+    · rintro ⟨t, ht, v, hv, rfl⟩
+      exact ⟨t, ht, List.mem_map.2 ⟨v, hv, rfl⟩⟩
+
+/-- The same with the strict order: names strictly increase along every term and along the
+variable list (sorted + duplicate-free, by antisymmetry of `≤` on `String`). -/
+theorem parse_canonical_strict (cc : CharClass) (s : List Char) (p : IParsed)
+    (h : C02.parse cc s = .ok p) :
+    (∀ t ∈ p.terms, (t.vars.map (·.1)).Pairwise (· < ·)) ∧ p.variables.Pairwise (· < ·) := by
+  obtain ⟨h1, h2, h3, _⟩ := parse_canonical cc s p h
+  exact ⟨fun t ht => pairwise_lt_of_le_of_nodup (h1 t ht).1 (h1 t ht).2,
+    pairwise_lt_of_le_of_nodup h2 h3⟩
+
+/-- Every variable name of an accepted polynomial — in the terms and in the variable list — is a
+single ASCII letter. -/
+theorem parse_ok_variables_ascii (cc : CharClass) (s : List Char) (p : IParsed)
+    (h : C02.parse cc s = .ok p) :
+    (∀ t ∈ p.terms, ∀ v ∈ t.vars, ∃ c : Char, isAsciiLetter c = true ∧ v.1 = String.singleton c) ∧
+    ∀ n ∈ p.variables, ∃ c : Char, isAsciiLetter c = true ∧ n = String.singleton c := by
+  obtain ⟨hts, _⟩ := parse_ok_iff cc s p h
+  have hterm := parseParts_ok cc _ _ hts
+  have h1 : ∀ t ∈ p.terms, ∀ v ∈ t.vars, ∃ c : Char, isAsciiLetter c = true ∧ v.1 = String.singleton c :=
+    fun t ht v hv => (hterm t ht).2.2 v.1 (List.mem_map.2 ⟨v, hv, rfl⟩)
+  refine ⟨h1, fun n hn => ?_⟩
+  obtain ⟨t, ht, v, hv, rfl⟩ := ((parse_canonical cc s p h).2.2.2 n).1 hn
+  exact h1 t ht v hv
+
+end Parser
+
+/-! ## Parser half: every string of the documented language is accepted and means what it says
+
+Vocabulary (defined in `SV.Lemmas.C02Grammar`, namespace `SV.C02`): `TermSyn` — a written term (sign,
+coefficient `Coef` = none | decimal | decimal/decimal with non-zero denominator, factors = ASCII letter
+with optional exponent `Expo` = [-]decimal | [-]decimal/decimal); `TermSyn.WF` — spellings well formed,
+letters distinct within the term, coefficient or at least one factor present; `render leadPlus ts` —
+the text without white space; `TermSyn.sem` — (signed coefficient value, (letter, exponent value) pairs
+sorted by letter) in ℚ; `ITerm.sem` — the same reading of a parsed term (`numVal` reads the `f64`
+operations `/` as exact division).  `Sane cc` (in `SV.Lemmas.C02Text`) lists the facts about
+`is_numeric` / `is_whitespace` that are used; `stdClass_sane` proves them for the driver's classes. -/
+section Grammar
+open SV.Text SV.C02
+
+/-- **The sign-protection rewrite on a rendering**: after normalisation the text is the terms'
+pieces (`-` + body for a negative term, the body otherwise) joined by `+`, with one leading `+` exactly
+when the first term was written with a sign — no `-` that belongs to an exponent is touched, and no
+other `-` survives without a `+` in front of it. -/
+theorem normalize_render (cc : CharClass) (lead : Bool) (t : TermSyn) (ts : List TermSyn)
+    (hwf : ∀ u ∈ t :: ts, u.WF) (s : List Char) (hs : stripWs cc s = render lead (t :: ts)) :
+    C02.normalize cc s =
+      (if t.neg = true ∨ lead = true then ['+'] else []) ++ t.piece ++
+        ts.flatMap fun u => '+' :: u.piece := by
+  unfold C02.normalize
+  rw [hs]
+  exact protectDash_render lead t ts hwf
+
+/-- **The split** gives back exactly one part per written term. -/
+theorem parts_of_render (cc : CharClass) (lead : Bool) (ts : List TermSyn) (hne : ts ≠ [])
+    (hwf : ∀ u ∈ ts, u.WF) (s : List Char) (hs : stripWs cc s = render lead ts) :
+    C02.parts (C02.normalize cc s) = ts.map TermSyn.piece := by
+  unfold C02.normalize
+  rw [hs]
+  exact parts_render lead ts hne hwf
+
+/-- **One part parses to the term it spells** (coefficient scan, fraction, variable loop with
+exponents, sort). -/
+theorem parsePart_of_render (cc : CharClass) (hcc : Sane cc) (t : TermSyn) (ht : t.WF) :
+    ∃ it, C02.parsePart cc t.piece = .ok it ∧ it.sem = t.sem :=
+  ⟨t.toITerm, parsePart_render hcc ht, sem_toITerm t⟩
+
+/-- **Grammar completeness.**  For character classes satisfying `Sane`, every text `s` whose
+non-white-space characters are the rendering of a non-empty list of well-formed terms — coefficient
+forms `""`, `n`, `n.d`, `.d`, `n.`, `a/b`; exponent forms absent, `n`, `-n`, `n.d`, `a/b`, `-a/b`;
+0..k distinct variables per term in any order; first term optionally signed; arbitrary white space —
+is accepted; the result has one term per written term, term `i` has the coefficient value
+`± value(coef)` (implicit `±1`) and its variables are the (letter, exponent value) pairs of written
+term `i` sorted by letter; the variable list contains exactly the letters written.
+
+Caveat inherited from the model (`Text.Dec.isZero`, validated by K only within the generators' 30
+digits): "non-zero denominator" is `mant ≠ 0` here, whereas Rust tests `y != 0.0` on the rounded
+binary64 — a denominator below 2^-1075 (e.g. `1/0.` + 400 zeros + `1x`) is `InvalidFraction` in the
+real code although the model accepts it. -/
+theorem parse_render_inter (cc : CharClass) (hcc : Sane cc) (lead : Bool) (ts : List TermSyn)
+    (hne : ts ≠ []) (hwf : ∀ t ∈ ts, t.WF) (s : List Char) (hs : stripWs cc s = render lead ts) :
+    ∃ p, C02.parse cc s = .ok p ∧ p.terms.length = ts.length ∧
+      p.terms.map ITerm.sem = ts.map TermSyn.sem ∧
+      ∀ n, n ∈ p.variables ↔ ∃ t ∈ ts, ∃ f ∈ t.factors, n = String.singleton f.letter := by
+  refine ⟨_, parse_render hcc lead ts hne hwf s hs, by simp, ?_, mem_variablesOf_render ts⟩
+  simp only [List.map_map]
+  apply List.map_congr_left
+  intro t _
+  exact sem_toITerm t
+
+/-- Term by term: the `i`-th parsed term has the coefficient value and the sorted
+(letter, exponent value) list of the `i`-th written term. -/
+theorem parse_render_inter_term (cc : CharClass) (hcc : Sane cc) (lead : Bool) (ts : List TermSyn)
+    (hne : ts ≠ []) (hwf : ∀ t ∈ ts, t.WF) (s : List Char) (hs : stripWs cc s = render lead ts)
+    (p : IParsed) (hp : C02.parse cc s = .ok p) (i : Nat) (hi : i < ts.length) :
+    ∃ it, p.terms[i]? = some it ∧
+      numVal it.coef = sgn ts[i].neg * ts[i].coef.value ∧
+      (it.vars.map fun v => (v.1, numVal v.2)) =
+        (ts[i].factors.map fun f => (String.singleton f.letter, f.expValue)).mergeSort
+          (fun a b => decide (a.1 ≤ b.1)) := by
+  obtain ⟨p', hp', hlen, hsem, _⟩ := parse_render_inter cc hcc lead ts hne hwf s hs
+  rw [hp] at hp'
+  cases hp'
+  have hi' : i < p.terms.length := by omega
+  refine ⟨p.terms[i], List.getElem?_eq_getElem hi', ?_⟩
+  have h := congrArg (fun l => l[i]?) hsem
+  simp only [List.getElem?_map, List.getElem?_eq_getElem hi', List.getElem?_eq_getElem hi,
+    Option.map_some, Option.some.injEq] at h
+  exact ⟨congrArg Prod.fst h, congrArg Prod.snd h⟩
+
+/-- A rendering itself (no white space at all) is accepted: `Sane` makes the hypothesis of
+`parse_render_inter` satisfiable by every rendering. -/
+theorem parse_render_inter_nospace (cc : CharClass) (hcc : Sane cc) (lead : Bool) (ts : List TermSyn)
+    (hne : ts ≠ []) (hwf : ∀ t ∈ ts, t.WF) :
+    ∃ p, C02.parse cc (render lead ts) = .ok p ∧ p.terms.map ITerm.sem = ts.map TermSyn.sem := by
+  obtain ⟨p, h1, _, h2, _⟩ :=
+    parse_render_inter cc hcc lead ts hne hwf _ (stripWs_render hcc lead ts hwf)
+  exact ⟨p, h1, h2⟩
+
+/-- The driver's character classes (ASCII + the table of non-ASCII characters the generators use)
+satisfy `Sane`, so the theorem applies to the configuration that K validates against the Rust parser. -/
+theorem parse_render_inter_std (lead : Bool) (ts : List TermSyn)
+    (hne : ts ≠ []) (hwf : ∀ t ∈ ts, t.WF) (s : List Char) (hs : stripWs stdClass s = render lead ts) :
+    ∃ p, C02.parse stdClass s = .ok p ∧ p.terms.map ITerm.sem = ts.map TermSyn.sem := by
+  obtain ⟨p, h1, _, h2, _⟩ := parse_render_inter stdClass stdClass_sane lead ts hne hwf s hs
+  exact ⟨p, h1, h2⟩
+
+/-- The empty text (or white space only) is accepted as the polynomial without terms — the one
+accepted text outside `1..n` terms that the split itself produces (Rust: "an empty input leaves one
+empty part in front", which is dropped). -/
+theorem parse_empty (cc : CharClass) (s : List Char) (hs : stripWs cc s = []) :
+    C02.parse cc s = .ok ⟨[], []⟩ := by
+  have hp : C02.parts (C02.protectDash none []) = [] := rfl
+  unfold C02.parse C02.normalize
+  rw [hs]
+  simp [hp, C02.parseParts]
+
+/-! ### non-vacuity: two concrete texts go through the theorem -/
+
+private def u1 : UDec := ⟨['1'], [], false⟩
+private def u2 : UDec := ⟨['2'], [], false⟩
+private def u3 : UDec := ⟨['3'], [], false⟩
+private def p5 : UDec := ⟨[], ['5'], true⟩
+
+private theorem u1_wf : u1.WF := ⟨by decide, by decide, by decide, by decide⟩
+private theorem u2_wf : u2.WF := ⟨by decide, by decide, by decide, by decide⟩
+private theorem u3_wf : u3.WF := ⟨by decide, by decide, by decide, by decide⟩
+private theorem p5_wf : p5.WF := ⟨by decide, by decide, by decide, by decide⟩
+
+/-- `2x^-2 - 3y^-1/2` -/
+private def ex1 : List TermSyn :=
+  [⟨false, .dec u2, [⟨'x', some (.dec true u2)⟩]⟩,
+   ⟨true, .dec u3, [⟨'y', some (.frac true u1 u2)⟩]⟩]
+
+private theorem ex1_wf : ∀ t ∈ ex1, t.WF := by
+  intro t ht
+  simp only [ex1, List.mem_cons, List.not_mem_nil, or_false] at ht
+  rcases ht with rfl | rfl
+  · refine ⟨u2_wf, by decide, ?_, by decide, by simp⟩
+    intro f hf e he
+    simp only [List.mem_cons, List.not_mem_nil, or_false] at hf
+    subst hf; cases he
+    exact u2_wf
+  · refine ⟨u3_wf, by decide, ?_, by decide, by simp⟩
+    intro f hf e he
+    simp only [List.mem_cons, List.not_mem_nil, or_false] at hf
+    subst hf; cases he
+    exact ⟨u1_wf, u2_wf, by decide⟩
+
+/-- `"2x^-2 - 3y^-1/2"` is accepted and means `2·x^(-2) + (-3)·y^(-1/2)`: the `-` after `^` stays in
+the exponent, the other `-` separates the terms. -/
+example : ∃ p, C02.parse stdClass
+      ['2','x','^','-','2',' ','-',' ','3','y','^','-','1','/','2'] = .ok p ∧
+    p.terms.map ITerm.sem = [(2, [("x", -2)]), (-3, [("y", -1/2)])] := by
+  obtain ⟨p, h1, h2⟩ := parse_render_inter_std false ex1 (by simp [ex1]) ex1_wf
+    ['2','x','^','-','2',' ','-',' ','3','y','^','-','1','/','2'] (by decide)
+  refine ⟨p, h1, ?_⟩
+  rw [h2]
+  simp [ex1, TermSyn.sem, sgn, Coef.value, UDec.value, UDec.mant, u1, u2, u3, Factor.expValue,
+    Expo.value, digitsVal, digitVal]
+
+/-- `1/2yx^2 + .5` -/
+private def ex2 : List TermSyn :=
+  [⟨false, .frac u1 u2, [⟨'y', none⟩, ⟨'x', some (.dec false u2)⟩]⟩,
+   ⟨false, .dec p5, []⟩]
+
+private theorem ex2_wf : ∀ t ∈ ex2, t.WF := by
+  intro t ht
+  simp only [ex2, List.mem_cons, List.not_mem_nil, or_false] at ht
+  rcases ht with rfl | rfl
+  · refine ⟨⟨u1_wf, u2_wf, by decide⟩, by decide, ?_, by decide, by simp⟩
+    intro f hf e he
+    simp only [List.mem_cons, List.not_mem_nil, or_false] at hf
+    rcases hf with rfl | rfl
+    · cases he
+    · cases he; exact u2_wf
+  · exact ⟨p5_wf, by decide, by simp, by decide, by simp⟩
+
+/-- `"1/2yx^2 + .5"` is accepted and means `(1/2)·x^2·y + 1/2` — variables come back sorted. -/
+example : ∃ p, C02.parse stdClass ['1','/','2','y','x','^','2',' ','+',' ','.','5'] = .ok p ∧
+    p.terms.map ITerm.sem = [(1/2, [("x", 2), ("y", 1)]), (1/2, [])] := by
+  obtain ⟨p, h1, h2⟩ := parse_render_inter_std false ex2 (by simp [ex2]) ex2_wf
+    ['1','/','2','y','x','^','2',' ','+',' ','.','5'] (by decide)
+  refine ⟨p, h1, ?_⟩
+  rw [h2]
+  simp [ex2, TermSyn.sem, sgn, Coef.value, UDec.value, UDec.mant, u1, u2, p5, Factor.expValue,
+    Expo.value, digitsVal, digitVal, List.mergeSort]
+  norm_num
+
+end Grammar
 
 end SV.Props.C02
